@@ -35,10 +35,11 @@ theorem wrapMissingNC_transparent (inner : Msg → M Msg) (m : Msg) (w : W) (h :
     | error e => exact wrapMissingNC_other inner m e w w' hi (h e (by rw [hi]))
 
 theorem transportWrite_error (line : Str) (w : W) (e : Exn) (h : (transportWrite line w).1 = .error e) :
-    e = .lib .transportFailed := by
+    e = .lib .transportFailed ∨ e = .foreign .CancelledError := by
   simp only [M.transportWrite] at h
   split at h <;> simp at h
-  exact h.symm
+  · exact Or.inl h.symm
+  · exact Or.inr h.symm
 
 theorem ite_write_notMissing (c : Bool) (r : Except Exn Msg) (w' : W) (line : Str) (h : NotMissing r) :
     NotMissing (if c = true then
@@ -58,8 +59,7 @@ theorem ite_write_notMissing (c : Bool) (r : Except Exn Msg) (w' : W) (line : St
         intro e he
         simp only [Except.error.injEq] at he
         subst he
-        rw [transportWrite_error _ _ e' (by rw [hw])]
-        rfl
+        rcases transportWrite_error _ _ e' (by rw [hw]) with h' | h' <;> rw [h'] <;> rfl
 
 /-- The version-query decorator ends with the handler's outcome or with a failed write. -/
 theorem wrapMissingPV_notMissing (inner : Msg → M Msg) (m : Msg) (w : W) (h : NotMissing (inner m w).1) :
@@ -430,30 +430,30 @@ theorem apiSend_keeps_known (obj : Option Msg) (b : Bool) : Rel KeepsKnown (apiS
 
 /-! ### Projections of one history step -/
 
-theorem stepOp_recv_st (s : St) (env : Env) (line : Str) (faults : List Bool) :
+theorem stepOp_recv_st (s : St) (env : Env) (line : Str) (faults : List Fault) :
     (stepOp s (.recv env line faults)).1 = (recv env line { st := s, faults := faults }).2.st := by
   simp only [stepOp]; split <;> simp_all
 
-theorem stepOp_recv_writes (s : St) (env : Env) (line : Str) (faults : List Bool) :
+theorem stepOp_recv_writes (s : St) (env : Env) (line : Str) (faults : List Fault) :
     (stepOp s (.recv env line faults)).2.writes = (recv env line { st := s, faults := faults }).2.writes := by
   simp only [stepOp]; split <;> simp_all
 
-theorem stepOp_recv_out (s : St) (env : Env) (line : Str) (faults : List Bool) :
+theorem stepOp_recv_out (s : St) (env : Env) (line : Str) (faults : List Fault) :
     (stepOp s (.recv env line faults)).2.out =
       match (recv env line { st := s, faults := faults }).1 with
       | .ok m => .ok (some m)
       | .error e => .error e := by
   simp only [stepOp]; split <;> simp_all
 
-theorem stepOp_send_st (s : St) (obj : Option Msg) (b : Bool) (faults : List Bool) :
+theorem stepOp_send_st (s : St) (obj : Option Msg) (b : Bool) (faults : List Fault) :
     (stepOp s (.send obj b faults)).1 = (apiSend obj b { st := s, faults := faults }).2.st := by
   simp only [stepOp]; split <;> simp_all
 
-theorem stepOp_send_writes (s : St) (obj : Option Msg) (b : Bool) (faults : List Bool) :
+theorem stepOp_send_writes (s : St) (obj : Option Msg) (b : Bool) (faults : List Fault) :
     (stepOp s (.send obj b faults)).2.writes = (apiSend obj b { st := s, faults := faults }).2.writes := by
   simp only [stepOp]; split <;> simp_all
 
-theorem stepOp_send_out (s : St) (obj : Option Msg) (b : Bool) (faults : List Bool) :
+theorem stepOp_send_out (s : St) (obj : Option Msg) (b : Bool) (faults : List Fault) :
     (stepOp s (.send obj b faults)).2.out =
       match (apiSend obj b { st := s, faults := faults }).1 with
       | .ok _ => .ok none
